@@ -15,6 +15,7 @@ import (
 	"fmt"
 	"io"
 	"os"
+	"syscall"
 
 	"github.com/ah-naf/borno/interpreter"
 	"github.com/ah-naf/borno/utils"
@@ -72,7 +73,7 @@ func verifSlurp(f *os.File) string {
 }
 
 func verifBatch() {
-	realIn, realOut := os.Stdin, os.Stdout
+	realIn, realOut, realErr := os.Stdin, os.Stdout, os.Stderr
 	inF, outF, errF := verifScratch("in"), verifScratch("out"), verifScratch("err")
 	rd := bufio.NewReaderSize(realIn, 1<<20)
 	wr := bufio.NewWriter(realOut)
@@ -89,7 +90,13 @@ func verifBatch() {
 		verifReset(inF, req.Stdin)
 		verifReset(outF, "")
 		verifReset(errF, "")
-		os.Stdin, os.Stdout, os.Stderr = inF, outF, errF
+		// a fresh *os.File per request, so that state cached per stdin (the
+		// shared ইনপুট reader) cannot leak from one request into the next
+		reqIn := inF
+		if fd, derr := syscall.Dup(int(inF.Fd())); derr == nil {
+			reqIn = os.NewFile(uintptr(fd), "verif-stdin")
+		}
+		os.Stdin, os.Stdout, os.Stderr = reqIn, outF, errF
 		utils.HadError, utils.HadRuntimeError = false, false
 		var resp verifResponse
 		func() {
@@ -111,7 +118,10 @@ func verifBatch() {
 		resp.Steps = interpreter.VerifSteps()
 		interpreter.VerifArm(0, 0)
 		resp.HadErr, resp.HadRt = utils.HadError, utils.HadRuntimeError
-		os.Stdin, os.Stdout, os.Stderr = realIn, realOut, os.NewFile(2, "/dev/stderr")
+		os.Stdin, os.Stdout, os.Stderr = realIn, realOut, realErr
+		if reqIn != inF {
+			reqIn.Close()
+		}
 		resp.Out, resp.Err = verifSlurp(outF), verifSlurp(errF)
 		b, _ := json.Marshal(&resp)
 		wr.Write(b)
